@@ -478,7 +478,7 @@ func (c *simCluster) run(n *simNode, desc, ev string, fn func() (response, []str
 		if hintp != nil && hintp.kind != "" {
 			hint = *hintp
 		}
-		if hint.kind == "votereq" || hint.kind == "recv" {
+		if hint.kind == "votereq" || hint.kind == "recv" || hint.kind == "install" {
 			hint.granted = o.resp != nil && o.resp.getResult() == success
 		}
 		c.cfg.record(c, n, ev, hint)
@@ -1450,6 +1450,11 @@ func (c *simCluster) sendSnapshot(n *simNode, fid uint64, rq *appendReq) {
 		lit: fmt.Sprintf("(ESnapReq (mkSnapReq %d %d %d %d %s) 0)", q.term, q.src, q.lastIndex, q.lastTerm, coqConfig(q.lastConfig))}
 	if c.abs != nil {
 		if lg := c.abs.logical(n); uint64(len(lg)) >= sat1(snap.meta.index) {
+			m.absK = lg[:sat1(snap.meta.index)]
+		}
+	}
+	if c.cfg != nil {
+		if lg := c.cfg.logLits(n); uint64(len(lg)) >= sat1(snap.meta.index) {
 			m.absK = lg[:sat1(snap.meta.index)]
 		}
 	}
